@@ -63,8 +63,8 @@ class Inst:
     def density(self, s):
         return self.rho_solid * MASSPER[s] / VOLPER[s]
 
-    def specific_activity(self):
-        return VOLPER["E"] * self.rho_enz / (MASSPER["E"] * self.rho_solid)
+    def specific_activity(self, s="E"):
+        return VOLPER[s] * self.rho_enz / (MASSPER[s] * self.rho_solid)
 
     def _make(self, s):
         S = self.pp.Substance
@@ -72,11 +72,15 @@ class Inst:
             return S.liquid("sub" + s, float(self.mol_weight(s)), float(self.density(s)))
         if KIND[s] == "solid":
             return S.solid("sub" + s, float(self.mol_weight(s)))
-        return S.enzyme("sub" + s, f"{fmt(self.specific_activity())} U/g")
+        # "F" is another lot of the enzyme E: same name, different specific activity (Substance equality ignores it)
+        return S.enzyme("subE" if s == "F" else "sub" + s, f"{fmt(self.specific_activity(s))} U/g")
 
     def model_name(self, substance):
         """impl Substance -> model name (by value, the library copies substances)."""
         n = substance.name
+        if n == "subE" and substance.specific_activity is not None and \
+                abs(substance.specific_activity - float(self.specific_activity("F"))) < 1e-6 * float(self.specific_activity("F")):
+            return "F"
         if n.startswith("sub") and n[3:] in KIND:
             return n[3:]
         return None
